@@ -275,6 +275,12 @@ def run(ctx):
                       "binary_search_by", "partition_point", "max_by_key", "min_by_key", "rev")]
             names = [t["callee"].get("method") for _k, _bb, t in scans]
             if not scans:
+                lok, ldet = loop_first_match_le(b, sl)
+                if lok is not None:
+                    ok, det = lok, ldet
+                    if ok:
+                        break
+                    continue
                 det = f"index derives from calls {sorted(set(call_names(sl)))}: no scan recognised"
                 continue
             bad = [n for n in names if n not in FIRST_MATCH]
@@ -421,6 +427,61 @@ def _read_bb(body, term):
         if t is term:
             return bb
     return 0
+
+
+def loop_first_match_le(b, sl):
+    """The `for (i, bound) in bounds.iter().enumerate() { if magnitude <= bound { found = Some(i); break; } }` spelling of the
+    first-match scan. Returns (None, "") when the index does not come from such a loop; else (ok, detail)."""
+    from ..analysis import iter_chain
+    cands = []
+    dom = b.dominators(unwind=False)
+    for blk in b.blocks:
+        if blk.cleanup or blk.idx not in dom:
+            continue
+        for st in blk.stmts:
+            if st["k"] == "assign" and st["rv"]["k"] == "aggr" and st["rv"].get("variant") == "Some" and st["place"]["l"] in sl["locals"] and \
+                    any(t["callee"].get("method") == "next" and b.in_loop(bb) and bb in dom[blk.idx] for bb, t in b.calls()):
+                cands.append((blk.idx, st))
+    if not cands:
+        return None, ""
+    if len(cands) != 1:
+        return False, f"{len(cands)} assignments of Some(index) inside loops"
+    sbb, st = cands[0]
+    nexts = [(bb, t) for bb, t in b.calls() if t["callee"].get("method") == "next" and sbb in b.successors_reach(bb, False) and bb in b.successors_reach(sbb, True)]
+    nx_all = [(bb, t) for bb, t in b.calls() if t["callee"].get("method") == "next" and b.in_loop(bb) and bb in dom[sbb]]
+    if len(nx_all) != 1:
+        return False, f"the Some(index) assignment is inside {len(nx_all)} iterator loops"
+    nbb, nt = nx_all[0]
+    brk = nbb not in b.successors_reach(sbb, False)
+    chain = iter_chain(b, nt["args"][0])
+    src = Slice(b).run(nt["args"][0])
+    src_ok = any(f.endswith("::bucket_magnitudes") for f in src["fields"]) and "enumerate" in chain and "rev" not in chain
+    # the guarding comparison
+    eff = None
+    for g in switch_guards(b, sbb):
+        dl = g.get("discr_local")
+        d = b.unique_def(dl) if dl is not None else None
+        if not d or d[2] != "assign" or d[3]["rv"]["k"] != "binop" or d[3]["rv"]["op"] not in ("Le", "Ge", "Lt", "Gt"):
+            continue
+        rv = d[3]["rv"]
+        sa, sb_ = Slice(b).run(rv["a"]), Slice(b).run(rv["b"])
+        a_el = any(ct is nt for _k, _b, ct in sa["calls"])
+        b_el = any(ct is nt for _k, _b, ct in sb_["calls"])
+        a_mag = 2 in sa["args"] and not a_el
+        b_mag = 2 in sb_["args"] and not b_el
+        if a_mag and b_el:
+            norm = rv["op"]
+        elif b_mag and a_el:
+            norm = {"Le": "Ge", "Ge": "Le", "Lt": "Gt", "Gt": "Lt"}[rv["op"]]
+        else:
+            continue
+        truthy = 0 not in g["allowed"]
+        eff = norm if truthy else {"Le": "Gt", "Gt": "Le", "Ge": "Lt", "Lt": "Ge"}[norm]
+    idx_sl = Slice(b).run(st["rv"]["ops"][0])
+    idx_ok = any(ct is nt for _k, _b, ct in idx_sl["calls"]) and not idx_sl["binops"]
+    ok = brk and src_ok and eff == "Le" and idx_ok
+    return ok, (f"loop form: forward enumerate over self.bucket_magnitudes {src_ok}; hit iff magnitude {eff} bound (need Le); index is the enumerate counter {idx_ok}; "
+                f"the loop is left right after the first hit {brk}")
 
 
 def closure_pred_le(parent, cl):
